@@ -22,7 +22,7 @@ FLOORS = {"quick": {"chain:2": 500, "grad_api": 300, "grad_list_mixed_orders": 6
 ASSUMPTIONS = ["norm terminals are evaluated away from zero (non-differentiable there)", "real float64 only"]
 
 CHAIN_OPS = ["add", "sub", "mul", "matvec", "vecmat", "matmat_vec", "sadd", "smul", "sdiv", "rsub", "neg", "mprod", "diag_rt",
-             "slice_full", "pad_slice", "sdiv_dep", "smul_dep", "sadd_dep", "ssub_dep", "mul_bc", "add_bc", "sub_bc"]
+             "slice_full", "pad_slice", "sdiv_dep", "smul_dep", "sadd_dep", "ssub_dep", "mul_bc", "add_bc", "sub_bc", "smul_dep0"]
 TERMINALS = ["full_lin", "sum_all", "sum_subset", "dot", "dot_axis", "norm", "norm_sq", "bilinear", "mask", "slice_lin",
              "cat_lin", "pad_lin", "kron_lin", "mprod_rect", "rect_matvec", "dense_matvec", "layer"]
 
@@ -164,6 +164,14 @@ def evaluate(T, case, c, dense_mode):
                 sc = sc.reshape([1])
             cur = {"sdiv_dep": lambda: cur / sc, "smul_dep": lambda: cur * sc, "sadd_dep": lambda: cur + sc,
                    "ssub_dep": lambda: cur - sc}[o]()
+        elif o == "smul_dep0":
+            # cur + cur * s with a tracked scalar s = <x2,x2> - <x2,x2> whose VALUE is exactly zero (its derivative is not used
+            # by the product rule, but d(cur*s)/d(cur) = s = 0 and d(cur*s)/d(x2) = cur * ds/dx2 = 0 as well): the point is
+            # that the graph must survive; and cur * (s + 1) - cur with the same s, whose derivative does matter
+            used.add("x2")
+            n2 = (L["x2"] ** 2).sum() if dense_mode else T.dot(L["x2"], L["x2"])
+            s0 = n2 - n2.detach()                     # value 0, d s0 / d x2 = d n2 / d x2
+            cur = cur + cur * s0 if i % 2 == 0 else cur + s0 * cur
         elif o == "rsub":
             cur = op["s"] - cur
         elif o == "neg":
@@ -350,8 +358,9 @@ def execute(case):
     for (leaf, i, t), a, b in zip(tracked, gtt, gdn):
         ck.require(list(a.shape) == list(t.shape), "grad_shape", "gradient shape differs from the core shape")
         ck.bound(fro(a - b), 1e-9 * (gnorm + scaleL), "grad_vs_dense", "leaf %s core %d" % (leaf, i))
-    # finite differences
-    if ck.failed is None:
+    # finite differences (not for smul_dep0: its zero-valued scalar is built with detach(), which is no function of the
+    # cores for a difference quotient; the autograd-vs-dense clause above covers it)
+    if ck.failed is None and not any(x["op"] == "smul_dep0" for x in case["chain"]):
         g = core.rng(case["seed"] + 99)
         for rep in range(2):
             dirs = [core.payload(list(t.shape), "f64", "gauss", g) for t in tens]
@@ -379,6 +388,15 @@ def execute(case):
             for t in v:
                 t.grad = None
         leaves2 = {k: T.TT(list(v)) for k, v in c.cores.items()}
+        if case["seed"] % 3 == 0:
+            # an earlier call of the gradient API on ANOTHER expression of the same (watched) leaves: the derivative
+            # asked for afterwards must be that of `val` alone
+            ck.label("grad_api_second_call")
+            prev = evaluate(T, case, c, False)[0] * 3.0 + 1.0
+            if api == "grad":
+                lib(lambda: T.grad.grad(prev, leaves2["x1"]))
+            else:
+                lib(lambda: T.grad.grad_list(prev, [leaves2[l] for l in case.get("gl_leaves", ["x1", "x2"])]))
         # evaluate() builds its own TT objects from the same core tensors, so .grad lands on them
         val = evaluate(T, case, c, False)[0]
         if api == "grad":
